@@ -165,11 +165,16 @@ def main():
         raise AssertionError(cls)
 
     exprs: list[tuple[str, object]] = []
+    FLOATY = BIN_ARITH + BIN_CMP + BIN_SEL
+    FLOATY_CHILD = [ir.Variable, ir.ArrayIndex, FL] + BIN_ARITH + BIN_SEL
     # depth 2, exhaustive over (parent, left child class, right child class), two leaf flavours
     for parent in BINARY + [ir.ArrayIndex]:
         for lc in ALL:
             for rc in ALL:
-                for fl in ("i", "f"):
+                flavours = ["i"]
+                if parent in FLOATY and lc in FLOATY_CHILD and rc in FLOATY_CHILD:
+                    flavours.append("f")
+                for fl in flavours:
                     nm = Names()
                     l, r = node(lc, fl, nm), node(rc, fl, nm)
                     exprs.append(("d2", parent(l, r)))
@@ -285,6 +290,22 @@ def main():
         stmts.append(("plain", ir.Assignment(t, e)))
         stmts.append(("decl", ir.DeclarationAssignment(ir.Declaration(V("d2"), T.float if fl == "f" else T.integer), e)))
 
+    # ---- corpus (past minimal failures run first) and single-case replays
+    ns = {k: getattr(ir, k) for k in dir(ir) if not k.startswith("_")}
+    ns.update({k: getattr(T, k) for k in ("Array", "Boolean", "FixedArray", "Float", "Integer", "Mode", "Pointer", "Tensor")})
+
+    def from_repr(text):
+        return eval(text, {"__builtins__": {}}, ns)  # reprs of frozen dataclasses written by this harness
+
+    pre_e, pre_s = [], []
+    for text in (cfg.get("only") or []) + (cfg.get("corpus") or []):
+        x = from_repr(text)
+        (pre_e if isinstance(x, ir.Expression) and not cfg.get("as_stmt") else pre_s).append(("corpus", x))
+    if cfg.get("only"):
+        exprs, stmts = pre_e, pre_s
+    else:
+        exprs, stmts = pre_e + exprs, pre_s + stmts
+
     # ---- dedupe
     def uniq(items):
         seen, out = set(), []
@@ -359,21 +380,24 @@ Fixpoint failing {A} (f : A -> nat) (i : nat) (l : list A) : list (nat * nat) :=
   | x :: r => match f x with 0 => failing f (S i) r | k => (i, k) :: failing f (S i) r end
   end.
 """
-    shard = cfg.get("shard", 400)
-    shards = []
+    block = cfg.get("block", 500)
+    per_file = cfg.get("blocks_per_file", 4)
+    files = []
     for what in ("expr", "stmt"):
         sel = [i for i, c in enumerate(cases) if c["what"] == what and c.get("tokens") is not None]
-        for s0 in range(0, len(sel), shard):
-            ids = sel[s0:s0 + shard]
-            name = f"c06p_{what}_{s0 // shard}"
+        blocks = [sel[s0:s0 + block] for s0 in range(0, len(sel), block)]
+        for f0 in range(0, len(blocks), per_file):
+            name = f"c06p_{what}_{f0 // per_file}"
             ty = "expr" if what == "expr" else "stmt"
-            body = ";\n  ".join(f"({cases[i]['coq']}, [{'; '.join(cases[i]['tokens'])}])" for i in ids)
-            text = HEADER + f"Definition cases : list ({ty} * list ctoken) := [\n  {body}\n].\n"
-            text += f"Eval vm_compute in (failing check_{what} 0 cases).\n"
+            text = HEADER
+            for j, ids in enumerate(blocks[f0:f0 + per_file]):
+                body = ";\n  ".join(f"({cases[i]['coq']}, [{'; '.join(cases[i]['tokens'])}])" for i in ids)
+                text += f"Definition cases{j} : list ({ty} * list ctoken) := [\n  {body}\n].\n"
+                text += f"Eval vm_compute in (failing check_{what} 0 cases{j}).\n"
             path = os.path.join(outdir, name + ".v")
             with open(path, "w") as fh:
                 fh.write(text)
-            shards.append({"name": name, "path": path, "ids": ids, "what": what})
+            files.append({"name": name, "path": path, "blocks": blocks[f0:f0 + per_file], "what": what})
 
     # --------------------------------------------------------------------------------------------
     # value sweep (searcher): gcc on the real text vs the tree itself
@@ -509,7 +533,42 @@ Fixpoint failing {A} (f : A -> nat) (i : nat) (l : list A) : list (nat * nat) :=
             isf = t.name in FLT_VARS
         else:
             isf = t.target.name == "q"
-        return float(v) if isf else chk_int(int(v)) if not isinstance(v, float) else Skip
+        if isf:
+            return float(v)
+        if isinstance(v, float):
+            raise Skip("float into an int target")
+        return chk_int(int(v))
+
+    NUM_SORT = tuple(BIN_ARITH + BIN_SEL) + (IL, FL, ir.BooleanToInteger)
+    BOOL_SORT = tuple(BIN_CMP + BIN_LOGIC) + (BL,)
+    ANY_SORT = (ir.Variable, ir.AttributeAccess, ir.ArrayIndex)
+
+    def numeric(e):
+        return isinstance(e, NUM_SORT + ANY_SORT)
+
+    def boolean(e):
+        return isinstance(e, BOOL_SORT + ANY_SORT)
+
+    def wt_expr(e):
+        """mirror of coq/model/CPrint.v::wt_expr && alloc_ok (the guard of C06_cprint_derives_partial)"""
+        if isinstance(e, (ir.Variable, IL, FL, BL)):
+            return True
+        if isinstance(e, ir.AttributeAccess):
+            return isinstance(e.target, ANY_SORT) and wt_expr(e.target)
+        if isinstance(e, ir.ArrayIndex):
+            return isinstance(e.target, ANY_SORT) and wt_expr(e.target) and numeric(e.index) and wt_expr(e.index)
+        if isinstance(e, tuple(BIN_ARITH + BIN_CMP + BIN_SEL)):
+            return numeric(e.left) and numeric(e.right) and wt_expr(e.left) and wt_expr(e.right)
+        if isinstance(e, tuple(BIN_LOGIC)):
+            return boolean(e.left) and boolean(e.right) and wt_expr(e.left) and wt_expr(e.right)
+        if isinstance(e, ir.BooleanToInteger):
+            return boolean(e.expression) and wt_expr(e.expression)
+        if isinstance(e, ir.ArrayAllocate):
+            return numeric(e.n_elements) and wt_expr(e.n_elements) and not isinstance(e.n_elements, ir.Multiply)
+        if isinstance(e, ir.ArrayReallocate):
+            return (isinstance(e.old, ANY_SORT) and wt_expr(e.old) and numeric(e.n_elements) and wt_expr(e.n_elements)
+                    and not isinstance(e.n_elements, ir.Multiply))
+        return False
 
     funcs = []   # (case index, C function text)
     if cfg.get("values", True):
@@ -518,13 +577,13 @@ Fixpoint failing {A} (f : A -> nat) (i : nat) (l : list A) : list (nat * nat) :=
                 continue
             x = c["obj"]
             if c["what"] == "expr":
-                if compilable(x):
+                if compilable(x) and wt_expr(x):
                     funcs.append((i, f"double f{i}(void) {{ return {c['text']}; }}"))
             elif isinstance(x, ir.Assignment):
                 t = x.target
                 ok_t = (isinstance(t, ir.Variable) and t.name in ("tf", "ti")) or (
                     isinstance(t, ir.ArrayIndex) and compilable(t))
-                if ok_t and compilable(x.value):
+                if ok_t and compilable(x.value) and wt_expr(x.value) and wt_expr(t):
                     funcs.append((i, f"double f{i}(void) {{ {c['text']} return {ir_to_c_expression(t)}; }}"))
     PRE = """#include <stdint.h>
 #include <stdbool.h>
@@ -587,8 +646,6 @@ void set_env(int32_t a, int32_t b, int32_t c, int32_t k, int32_t t_i, double d, 
                         else:
                             want = run_stmt(x, env)
                             want_rot = run_stmt(rot(x), env)
-                        if want is Skip or want_rot is Skip:
-                            raise Skip("float into int target")
                     except Skip:
                         n_skipped += 1
                         continue
@@ -607,7 +664,7 @@ void set_env(int32_t a, int32_t b, int32_t c, int32_t k, int32_t t_i, double d, 
 
     for c in cases:
         c.pop("obj", None)
-    index = {"cases": cases, "shards": shards, "value_diffs": value_diffs, "compile_dropped": compile_dropped,
+    index = {"cases": cases, "files": files, "value_diffs": value_diffs, "compile_dropped": compile_dropped,
              "macro_ok": macro_ok}
     with open(os.path.join(outdir, "index.json"), "w") as fh:
         json.dump(index, fh)
@@ -615,7 +672,7 @@ void set_env(int32_t a, int32_t b, int32_t c, int32_t k, int32_t t_i, double d, 
     for c in cases:
         kinds[c["kind"]] = kinds.get(c["kind"], 0) + 1
     print(json.dumps({"cases": len(cases), "exprs": len(exprs), "stmts": len(stmts), "kinds": kinds,
-                      "shards": len(shards), "unlexed": sum(1 for c in cases if c.get("tokens") is None),
+                      "files": len(files), "unlexed": sum(1 for c in cases if c.get("tokens") is None),
                       "value_functions": len(funcs), "values_compared": n_values, "values_skipped": n_skipped,
                       "value_diffs": len(value_diffs),
                       "value_diffs_unexplained": sum(1 for d in value_diffs if not d["explained_by_rotate"]),
